@@ -245,6 +245,29 @@ func genFn(stream string, seed uint64, n int) []GenCase {
 			Runs: []Run{{Obj: stdObject(r), Polls: -1}}}
 		out = append(out, GenCase{Case: c, Stream: stream, NonTrivial: true})
 	}
+	// a function without `return` gives nothing, whatever its last instruction is: sweep the operand of the
+	// last instruction of the body (argument counts 0..40 of a final call; the constant index 0..40 of a
+	// final v++ / lookup-free statement) - byte values that coincide with opcode numbers included
+	for k := 0; k <= 40; k++ {
+		var args []string
+		for a := 0; a < k; a++ {
+			args = append(args, fmt.Sprint(a))
+		}
+		var pre strings.Builder
+		for a := 0; a < k; a++ {
+			pre.WriteString(fmt.Sprintf("s = \"k%d\"; ", a))
+		}
+		for j, script := range []string{
+			"function f() { rec(" + strings.Join(args, ", ") + "); } x = f(); return x;",
+			"function f() { rec(" + strings.Join(args, ", ") + "); } foreach i in [1, 2, 3] { f(); } return 7;",
+			pre.String() + "v = 1; function f() { v++; } f(); f(); x = f(); return v;",
+			pre.String() + "v = 1; function f() { v++; } foreach i in [1, 2] { f(); } return v;",
+		} {
+			c := Case{ID: fmt.Sprintf("%s-lastop-%d-%d", stream, k, j), Script: script, Opt: (k+j)%2 == 0, Fns: []HostFn{recFn()}, Show: []string{"code"},
+				Tags: []string{"implicit-return-sweep"}, Runs: []Run{{Obj: stdObject(r), Polls: defaultPolls}}}
+			out = append(out, GenCase{Case: c, Stream: stream, NonTrivial: true})
+		}
+	}
 	for i := 0; i < n; i++ {
 		rr := r.Fork()
 		var sb strings.Builder
@@ -627,6 +650,10 @@ func genDet(stream string, seed uint64, n int, replicas int) []GenCase {
 		"x = {\"one\": 1, \"two\": 2, \"three\": 3, \"four\": 4, \"five\": 5, \"six\": 6, \"seven\": 7, \"eight\": 8}; return [x, keys(x), len(x)];",
 		"return sort([\"b\", \"a\", \"C\", \"A\", \"c\", \"B\"], true);",
 		"return {1: {2: {3: {\"b\": 1, \"a\": 2}}}};",
+		// many keys of different types that print the same: the order among them must be fixed too (by type)
+		"h = {1: 1, 1.0: 2, \"1\": 3, 2: 4, 2.0: 5, \"2\": 6, 3: 7, 3.0: 8, \"3\": 9, 10: 10, 10.0: 11, \"10\": 12, true: 13, \"true\": 14, false: 15, \"false\": 16}; s = \"\"; foreach k, v in h { s = s + type(k) + string(v) + \",\"; } return [s, keys(h), h];",
+		"h = {7.0: \"f\", 7: \"i\", 8.0: \"f\", 8: \"i\", 9.0: \"f\", 9: \"i\", 11.0: \"f\", 11: \"i\", 12.0: \"f\", 12: \"i\", 13.0: \"f\", 13: \"i\"}; s = \"\"; foreach k, v in h { s = s + v; } return [s, h];",
+		"h = {\"5\": \"s\", 5: \"i\", 5.0: \"f\", \"6\": \"s\", 6: \"i\", 6.0: \"f\", \"-1\": \"s\", -1: \"i\", -1.0: \"f\"}; return [keys(h), h, string(h)];",
 	}
 	id := 0
 	mk := func(script string, i int) {
